@@ -17,6 +17,7 @@ import (
 	"math"
 	"sort"
 	"strings"
+	"time"
 
 	"github.com/ontio/ontology/common"
 	"github.com/ontio/ontology/common/config"
@@ -44,15 +45,20 @@ type input struct {
 	Peers      []peerIn `json:"peers"`
 	Txid       string   `json:"txid"`
 	Height     uint32   `json:"height"`
+	// a second ordering of Peers on which the implementation answered differently (set in
+	// failing inputs; replayed first)
+	AltOrder []peerIn `json:"alt_order,omitempty"`
 }
 
 type result struct {
-	Err      string // "" | "EPanic" | "EScale" | "other:<msg>"
-	Misc     [8]uint64
-	Peers    [][2]string // index, hex key
-	PosTable []uint32
-	panicMsg string
+	Err      string      `json:"err"` // "" | "EPanic" | "EScale" | "other:<msg>" | "blowup:<why>"
+	Misc     [8]uint64   `json:"misc"`
+	Peers    [][2]string `json:"peers"` // index, hex key
+	PosTable []uint32    `json:"pos_table"`
+	PanicMsg string      `json:"panic_msg,omitempty"`
 }
+
+func (r result) blewUp() bool { return strings.HasPrefix(r.Err, "blowup:") }
 
 func (r result) canon() string {
 	if r.Err != "" {
@@ -95,26 +101,17 @@ func project(cc *vconfig.ChainConfig) result {
 	return r
 }
 
-// runImpl: one execution of the real GenesisChainConfig on the peers in the given order.
+// runImpl: one execution of the real GenesisChainConfig on the peers in the given order, in the
+// guarded child process (child.go).
 func runImpl(c *hx.Ctx, in *input, ps []peerIn) result {
 	c.Eval()
-	var r result
-	var cc *vconfig.ChainConfig
-	var err error
-	p, msg := hx.Recover(func() {
-		cc, err = vconfig.GenesisChainConfig(in.conf(), mkPeers(ps), txid(in), in.Height)
-	})
-	switch {
-	case p:
-		r.Err, r.panicMsg = "EPanic", msg
-	case err != nil && strings.Contains(err.Error(), "L is equal or less than K"):
-		r.Err = "EScale"
-	case err != nil:
-		r.Err = "other:" + err.Error()
-	default:
-		r = project(cc)
+	q := *in
+	q.AltOrder = nil
+	resp := call(&childReq{Kind: "config", In: q, Peers: ps})
+	if resp.Blowup != "" {
+		return result{Err: "blowup:" + resp.Blowup}
 	}
-	return r
+	return resp.R
 }
 
 // ---- gating: never ask the implementation to build a gigantic table ----
@@ -237,6 +234,70 @@ func distinct(in *input) (keys, idx bool) {
 	return
 }
 
+// specLess is the order the property prescribes (stake descending, then key descending); used
+// only to build input orderings, never to judge a result.
+func specLess(a, b peerIn) bool {
+	if a.Stake != b.Stake {
+		return a.Stake > b.Stake
+	}
+	return string(hx.UnHex(a.Key)) > string(hx.UnHex(b.Key))
+}
+
+// orderings: the deterministic input orders most likely to expose a dependence on the input
+// order (highest first, lowest first = the K smallest in front, the K smallest in front followed
+// by the rest highest first), then random ones.
+func orderings(c *hx.Ctx, in *input, nrand int) (names []string, out [][]peerIn) {
+	add := func(n string, ps []peerIn) { names, out = append(names, n), append(out, ps) }
+	if len(in.AltOrder) == len(in.Peers) && len(in.AltOrder) > 0 {
+		add("alt_order", in.AltOrder)
+	}
+	desc := append([]peerIn{}, in.Peers...)
+	sort.SliceStable(desc, func(i, j int) bool { return specLess(desc[i], desc[j]) })
+	add("highest-stake-first", desc)
+	asc := make([]peerIn, len(desc))
+	for i := range desc {
+		asc[len(desc)-1-i] = desc[i]
+	}
+	add("lowest-stake-first", asc)
+	if k := int(in.K); k > 0 && k < len(desc) {
+		mixed := append([]peerIn{}, asc[:k]...)
+		mixed = append(mixed, desc[:len(desc)-k]...)
+		add("k-smallest-then-highest-first", mixed)
+	}
+	for t := 0; t < nrand; t++ {
+		ps := append([]peerIn{}, in.Peers...)
+		c.Rng.Shuffle(len(ps), func(i, j int) { ps[i], ps[j] = ps[j], ps[i] })
+		add("random", ps)
+	}
+	return
+}
+
+// orderOracle runs first and is cheap: the configuration (whole result, errors included) must be
+// the same for every ordering of the same peer set. Returns false when it already failed.
+func orderOracle(c *hx.Ctx, in *input, r result) bool {
+	names, ords := orderings(c, in, 14)
+	for i, ps := range ords {
+		r2 := runImpl(c, in, ps)
+		if r2.canon() == r.canon() {
+			continue
+		}
+		bad := *in
+		bad.AltOrder = ps
+		if r2.blewUp() {
+			c.Fail("cfg:blowup", "GenesisChainConfig did not return on a reordering of a peer set it handles in another order (memory/time guard of the child process)",
+				bad, map[string]interface{}{"ordering": names[i], "alt_order": r2.Err, "peers_order": short(r.canon())},
+				fmt.Sprintf("the same configuration as for the order `peers`; position table of about %d entries expected", predictedSlots(in)))
+		} else {
+			c.Fail("order-dependence", "the configuration differs between two orderings (peers, alt_order) of the same peer set",
+				bad, map[string]interface{}{"ordering": names[i], "alt_order": short(r2.canon()), "peers_order": short(r.canon()),
+					"pos_table_len_alt": len(r2.PosTable), "pos_table_len_peers": len(r.PosTable)}, "identical configurations")
+		}
+		return false
+	}
+	c.Count("oracle:orderings-checked")
+	return true
+}
+
 func oracle(c *hx.Ctx, in *input, r result) {
 	dk, di := distinct(in)
 	if !dk {
@@ -244,20 +305,9 @@ func oracle(c *hx.Ctx, in *input, r result) {
 		return
 	}
 	// 1. determinism over input orders (any parameters, errors included)
-	nperm := 20
-	for t := 0; t < nperm; t++ {
-		ps := append([]peerIn{}, in.Peers...)
-		c.Rng.Shuffle(len(ps), func(i, j int) { ps[i], ps[j] = ps[j], ps[i] })
-		r2 := runImpl(c, in, ps)
-		if r2.canon() != r.canon() {
-			in2 := *in
-			in2.Peers = ps
-			c.Fail("order-dependence", "the configuration differs between two orderings of the same peer set",
-				map[string]interface{}{"a": in, "b": in2}, r2.canon(), r.canon())
-			break
-		}
+	if !orderOracle(c, in, r) {
+		return
 	}
-	c.Count("oracle:permutations-checked")
 	if !validParams(in) || !di {
 		c.Count("oracle:invalid-params-or-dup-index(order-only)")
 		return
@@ -268,7 +318,7 @@ func oracle(c *hx.Ctx, in *input, r result) {
 		return
 	}
 	if r.Err != "" {
-		c.Fail("valid-config-rejected:"+r.Err, "a valid configuration produced no ChainConfig", in, r.Err+" "+r.panicMsg, "a ChainConfig")
+		c.Fail("valid-config-rejected:"+r.Err, "a valid configuration produced no ChainConfig", in, r.Err+" "+r.PanicMsg, "a ChainConfig")
 		return
 	}
 	// 2. exactly the K highest-staked peers
@@ -328,60 +378,58 @@ func oracle(c *hx.Ctx, in *input, r result) {
 
 // payloadCheck drives genConsensusPayload (hook) and records which parameter check fired.
 func payloadCheck(c *hx.Ctx, in *input, direct result) {
-	cfg := in.conf()
-	cfg.Peers = mkPeers(in.Peers)
 	before := fmt.Sprint(in.Peers)
-	var out []byte
-	var err error
 	c.Eval()
-	p, msg := hx.Recover(func() { out, err = vconfig.VerifGenConsensusPayload(cfg, txid(in), in.Height) })
+	q := *in
+	q.AltOrder = nil
+	resp := call(&childReq{Kind: "payload", In: q, Peers: in.Peers})
+	if resp.Blowup != "" {
+		c.Count("payload:blowup")
+		c.Fail("cfg:blowup", "genConsensusPayload did not return (memory/time guard of the child process)", in, resp.Blowup,
+			fmt.Sprintf("a payload; position table of about %d entries expected", predictedSlots(in)))
+		return
+	}
+	e := resp.PayloadErr
 	code := ""
 	switch {
-	case p:
+	case resp.PayloadPanic != "":
 		code = "panic"
-	case err == nil:
+	case e == "":
 		code = "None"
-	case strings.Contains(err.Error(), "C must larger than zero"):
+	case strings.Contains(e, "C must larger than zero"):
 		code = "(Some PCzero)"
-	case strings.Contains(err.Error(), "peer count is less than K"):
+	case strings.Contains(e, "peer count is less than K"):
 		code = "(Some PPeerCount)"
-	case strings.Contains(err.Error(), "invalid config, K:") && strings.Contains(err.Error(), "C:"):
+	case strings.Contains(e, "invalid config, K:") && strings.Contains(e, "C:"):
 		code = "(Some PKC)"
-	case strings.Contains(err.Error(), "invalid config, K:") && strings.Contains(err.Error(), "L:"):
+	case strings.Contains(e, "invalid config, K:") && strings.Contains(e, "L:"):
 		code = "(Some PKL)"
-	case strings.Contains(err.Error(), "L is equal or less than K"):
+	case strings.Contains(e, "L is equal or less than K"):
 		code = "None" // passed the parameter checks, GenesisChainConfig refused
 	default:
 		code = "other"
 	}
 	c.Count("payload:" + code)
 	if code == "panic" {
-		c.Fail("payload-panic", "genConsensusPayload panicked", in, msg, "error or payload")
+		c.Fail("payload-panic", "genConsensusPayload panicked", in, resp.PayloadPanic, "error or payload")
 		return
 	}
 	if code == "other" {
-		c.Note("unclassified genConsensusPayload error: " + err.Error())
+		c.Note("unclassified genConsensusPayload error: " + e)
 		return
 	}
 	c.Case(fmt.Sprintf("CPayload %s %s %s", coqConf(in), hx.CoqNat(len(in.Peers)), code),
 		map[string]interface{}{"kind": "payload", "in": in})
 	// the caller's peer list must be left alone (deep copy)
-	var after []peerIn
-	for _, q := range cfg.Peers {
-		after = append(after, peerIn{q.Index, hex.EncodeToString([]byte(q.PeerPubkey)), q.InitPos})
+	if fmt.Sprint(resp.After) != before {
+		c.Fail("payload-mutates-config", "genConsensusPayload reordered the caller's peer list", in, resp.After, in.Peers)
 	}
-	if fmt.Sprint(after) != before {
-		c.Fail("payload-mutates-config", "genConsensusPayload reordered the caller's peer list", in, after, in.Peers)
-	}
-	if err == nil && asciiKeys(in) {
-		var info struct {
-			NewChainConfig *vconfig.ChainConfig `json:"new_chain_config"`
-		}
-		if e := json.Unmarshal(out, &info); e != nil || info.NewChainConfig == nil {
-			c.Fail("payload-undecodable", "payload does not decode to a block info with a chain config", in, fmt.Sprint(e), nil)
+	if e == "" && asciiKeys(in) {
+		if resp.PayloadCfg == nil {
+			c.Fail("payload-undecodable", "payload does not decode to a block info with a chain config", in, resp.PayloadBad, nil)
 			return
 		}
-		if got := project(info.NewChainConfig); got.canon() != direct.canon() {
+		if got := *resp.PayloadCfg; got.canon() != direct.canon() {
 			c.Fail("payload-differs", "chain config inside the payload differs from GenesisChainConfig on the same input", in, got.canon(), direct.canon())
 		}
 	}
@@ -404,26 +452,49 @@ func doCase(c *hx.Ctx, in *input, kind string) {
 		return
 	}
 	r := runImpl(c, in, in.Peers)
-	if strings.HasPrefix(r.Err, "other:") {
-		c.Fail("unexpected-error", "GenesisChainConfig returned an error outside the modelled ones", in, r.Err, nil)
+	if r.blewUp() {
+		// the specification predicts a small table (safeToRun) and the implementation did not return
+		c.Count("result:blowup")
+		c.Fail("cfg:blowup", "GenesisChainConfig did not return (memory/time guard of the child process)", in, r.Err,
+			fmt.Sprintf("a configuration; position table of about %d entries expected", predictedSlots(in)))
 		return
+	}
+	if strings.HasPrefix(r.Err, "other:") {
+		// an error the model does not have: a correspondence mismatch (ROther), and a property
+		// failure only if the parameters were valid (oracle below)
+		c.Count("result:unmodelled-error")
 	}
 	c.Count("kind:" + kind)
 	c.Count(fmt.Sprintf("peers<=%d", bucket(len(in.Peers))))
+	if int(in.K) < len(in.Peers) && in.K > 0 {
+		c.Count("candidates>K")
+	}
 	if r.Err == "" {
 		c.Count(fmt.Sprintf("postable<=%d", bucket(len(r.PosTable))))
 		c.Count("result:ok")
-	} else {
+	} else if !strings.HasPrefix(r.Err, "other:") {
 		c.Count("result:" + r.Err)
 	}
+	// the order oracle first (cheap, and the most likely to find a failing input)
+	oracle(c, in, r)
 	if len(in.Peers) >= 2 && r.Err == "" {
-		c.Nontrivial(fmt.Sprint(*in))
+		c.Nontrivial(fmt.Sprint(in.C, in.K, in.L, in.Peers, in.Txid, in.Height))
 	}
 	c.Sample(map[string]interface{}{"kind": kind, "in": in, "err": r.Err, "peers": r.Peers, "pos_table": r.PosTable})
-	c.Case(fmt.Sprintf("CConfig %s %s %s %d %s", coqConf(in), coqPeers(in.Peers), hx.CoqBytes(hx.UnHex(in.Txid)), in.Height, coqRes(r)),
-		map[string]interface{}{"kind": kind, "in": in})
-	oracle(c, in, r)
+	if len(r.PosTable) <= 4*maxSlots {
+		c.Case(fmt.Sprintf("CConfig %s %s %s %d %s", coqConf(in), coqPeers(in.Peers), hx.CoqBytes(hx.UnHex(in.Txid)), in.Height, coqRes(r)),
+			map[string]interface{}{"kind": kind, "in": in})
+	} else {
+		c.Count("coq-case-omitted:table-larger-than-specified")
+	}
 	payloadCheck(c, in, r)
+}
+
+func short(s string) string {
+	if len(s) > 700 {
+		return s[:700] + fmt.Sprintf("... (%d characters)", len(s))
+	}
+	return s
 }
 
 func bucket(n int) int {
@@ -485,6 +556,11 @@ func genStake(c *hx.Ctx, style int, base uint64) uint64 {
 		return []uint64{1 << 63, 1<<63 + 1, math.MaxUint64, math.MaxUint64 - 1, 1 << 62, 1<<64 - 1<<11, 1<<64 - 1<<10 - 1, 5}[c.Intn(8)]
 	case 6: // tiny
 		return uint64(c.Intn(4))
+	case 8: // a few tiny stakes among large ones
+		if c.Intn(3) == 0 {
+			return uint64(1 + c.Intn(3))
+		}
+		return []uint64{1000000, 5000000, 1 << 30, 1 << 40}[c.Intn(4)] + uint64(c.Intn(1000))
 	default:
 		return c.U64Boundary() >> uint(c.Intn(20))
 	}
@@ -500,7 +576,7 @@ func genInput(c *hx.Ctx) (*input, string) {
 		n = 10 + c.Intn(12)
 	}
 	keyStyle := []int{0, 1, 1, 2, 2, 3, 3, 1}[c.Intn(8)]
-	stakeStyle := c.Intn(8)
+	stakeStyle := []int{0, 1, 2, 3, 4, 5, 6, 7, 8, 8, 8, 3}[c.Intn(12)]
 	base := []uint64{1, 7, 1000, 1 << 40}[c.Intn(4)]
 	seenK, seenI := map[string]bool{}, map[uint32]bool{}
 	dupOK := c.Intn(25) == 0 // rarely allow duplicate keys / indexes (correspondence only)
@@ -554,6 +630,13 @@ func genInput(c *hx.Ctx) (*input, string) {
 		}
 		if in.K < 3 && n >= 3 && c.Intn(8) != 0 {
 			in.K = uint32(3 + c.Intn(n-2))
+		}
+		if n >= 4 && c.Intn(3) == 0 { // more candidates than K: n in K+1..K+5
+			d := 1 + c.Intn(5)
+			if n-d < 3 {
+				d = n - 3
+			}
+			in.K = uint32(n - d)
 		}
 		maxC := (in.K - 1) / 2
 		in.C = maxC
@@ -632,17 +715,42 @@ func fixedInputs() []*input {
 		mk(1, 3, 6, peerIn{1, hexs("a"), 0}, peerIn{2, hexs("ab"), 0}, peerIn{3, hexs(""), 0}, peerIn{4, hexs("b"), 0}),
 		// one dominant staker
 		mk(1, 3, 30, peerIn{9, hexs("x"), 1 << 40}, peerIn{8, hexs("y"), 1}, peerIn{7, hexs("z"), 1}, peerIn{6, hexs("w"), 0}),
+		// more candidates than K, the K smallest stakes first in the input
+		mk(1, 4, 8, peerIn{1, hexs("t1"), 1}, peerIn{2, hexs("t2"), 2}, peerIn{3, hexs("t3"), 1}, peerIn{4, hexs("t4"), 3},
+			peerIn{5, hexs("b1"), 1000000}, peerIn{6, hexs("b2"), 2000000}, peerIn{7, hexs("b3"), 1500000}),
+		mk(1, 3, 12, peerIn{1, hexs("t1"), 1}, peerIn{2, hexs("t2"), 1}, peerIn{3, hexs("t3"), 2}, peerIn{4, hexs("b1"), 1 << 40}, peerIn{5, hexs("b2"), 1 << 41}),
 		// stakes around 2^53 (float64 rounding of the operands)
 		mk(1, 4, 40, peerIn{1, hexs("p"), 1<<53 + 1}, peerIn{2, hexs("q"), 1 << 53}, peerIn{3, hexs("r"), 1<<53 - 1}, peerIn{4, hexs("s"), 1<<53 + 2}),
 	}
 }
 
+// budget: the driver stops generating configuration cases after this much wall time or after
+// this many blow-ups of the implementation (each costs a child restart), so that one bad
+// implementation cannot make the run end without a result file.
+const (
+	runBudget  = 150 * time.Second
+	maxBlowups = 4
+)
+
 func Run(c *hx.Ctx) {
 	c.CoqModule("Corr.C30")
+	defer stopWorker()
+	t0 := time.Now()
 	var rin input
 	if c.ReplayInput(&rin) {
 		doCase(c, &rin, "replay")
 		return
+	}
+	stop := func() bool {
+		if blowups >= maxBlowups {
+			c.Note(fmt.Sprintf("configuration cases stopped after %d blow-ups of the implementation", blowups))
+			return true
+		}
+		if time.Since(t0) > runBudget {
+			c.Note("configuration cases stopped: wall-time budget of the driver used up")
+			return true
+		}
+		return false
 	}
 	for _, raw := range c.CorpusInputs() {
 		var in input
@@ -651,10 +759,13 @@ func Run(c *hx.Ctx) {
 		}
 	}
 	for _, in := range fixedInputs() {
+		if stop() {
+			break
+		}
 		doCase(c, in, "fixed")
 	}
 	n := c.N(170, 2500)
-	for i := 0; i < n; i++ {
+	for i := 0; i < n && !stop(); i++ {
 		in, kind := genInput(c)
 		doCase(c, in, kind)
 		// one permuted variant also goes to the model
@@ -663,13 +774,14 @@ func Run(c *hx.Ctx) {
 			in2.Peers = append([]peerIn{}, in.Peers...)
 			c.Rng.Shuffle(len(in2.Peers), func(i, j int) { in2.Peers[i], in2.Peers[j] = in2.Peers[j], in2.Peers[i] })
 			r := runImpl(c, &in2, in2.Peers)
-			if !strings.HasPrefix(r.Err, "other:") {
+			if !strings.HasPrefix(r.Err, "other:") && !r.blewUp() && len(r.PosTable) <= 4*maxSlots {
 				c.Count("kind:permuted-variant")
 				c.Case(fmt.Sprintf("CConfig %s %s %s %d %s", coqConf(&in2), coqPeers(in2.Peers), hx.CoqBytes(hx.UnHex(in2.Txid)), in2.Height, coqRes(r)),
 					map[string]interface{}{"kind": "permuted", "in": in2})
 			}
 		}
 	}
+	stopWorker()
 	hashCases(c, c.N(200, 3000))
 	floatCases(c, c.N(240, 3000))
 }
